@@ -27,18 +27,30 @@ def cutPoints (d : DataID) (s : St) : List Point := s.sendHook.flatMap fun e => 
 
 def bufPoints (d : DataID) (s : St) : List Point := (s.buf.filter (·.1 = d)).flatMap (·.2)
 
+theorem written_eq (d : DataID) (evs : List Ev) : written d evs = evs.flatMap (wr d) := by
+  induction evs with
+  | nil => rfl
+  | cons e r ih => cases e <;> simp [written, wr, ih]
+
 /-- CONSERVATION: in every reachable state, for every data id, the points cut into chunks so far (in chunk order) followed
     by the points still buffered are exactly the points written under that id, in order: nothing lost, duplicated, altered
     or attributed to another data id. -/
 theorem C01.conservation (p : Policy) (rev : List (DataID × Nat)) (evs : List Ev) (d : DataID) :
     cutPoints d (run (init p rev) evs) ++ bufPoints d (run (init p rev) evs) = written d evs := by
-  sorry
+  rw [written_eq]
+  have h := held_run d evs (init p rev) (Inv_init p rev)
+  have h0 : held d (init p rev) = [] := rfl
+  rw [h0, List.nil_append] at h
+  exact h
 
 /-- chunks are numbered 1..N without gaps or reuse, in the order they were cut; the send hook saw each once under its number -/
 theorem C01.seq_contiguous (p : Policy) (rev : List (DataID × Nat)) (evs : List Ev) :
     let s := run (init p rev) evs
     s.sent.map (·.seq) = List.range' 1 s.sent.length ∧ s.seq = s.sent.length ∧ s.sendHook.map (·.1) = s.sent.map (·.seq) := by
-  sorry
+  intro s
+  have h : Inv s := Inv_run_init p rev evs
+  refine ⟨?_, h.len.symm, h.hook⟩
+  rw [h.len]; exact h.seqs
 
 /-- the pairs (alias, id) the broker announced along a history, and the broker's sanity: one alias never names two ids -/
 def announced : List Ev → List (Nat × DataID)
@@ -49,6 +61,13 @@ def announced : List Ev → List (Nat × DataID)
 def AliasSane (rev : List (DataID × Nat)) (evs : List Ev) : Prop :=
   ∀ a d d', ((a, d) ∈ announced evs ∨ (d, a) ∈ rev) → ((a, d') ∈ announced evs ∨ (d', a) ∈ rev) → d = d'
 
+theorem announced_eq (evs : List Ev) : announced evs = evs.flatMap ann := by
+  induction evs with
+  | nil => rfl
+  | cons e r ih => cases e <;> simp [announced, ann, ih]
+
+-- note: the hypothesis `hrev` is not needed by the proof (`AliasSane` alone suffices); kept as stated
+set_option linter.unusedVariables false in
 /-- ALIAS ROUND TRIP / SEND HOOK: every chunk on the wire, resolved through the alias table (any later state of it), is exactly
     the content announced to the send hook under the same sequence number: alias substitution never re-attributes a point. -/
 theorem C01.wire_matches_hook (p : Policy) (rev : List (DataID × Nat)) (evs : List Ev) (h : AliasSane rev evs)
@@ -57,13 +76,28 @@ theorem C01.wire_matches_hook (p : Policy) (rev : List (DataID × Nat)) (evs : L
     s.sent.length = s.sendHook.length ∧
     ∀ i (hi : i < s.sent.length) (hj : i < s.sendHook.length),
       (s.sent[i].groups.map (resolve s.rev)) = (s.sendHook[i].2.map some) := by
-  sorry
+  intro s
+  have hw : WInv s := WInv_run evs _ (WInv_init p rev)
+  have hs : RevSane s.rev := by
+    intro e he e' he' heq
+    have h1 := rev_run evs (init p rev) e he
+    have h2 := rev_run evs (init p rev) e' he'
+    rw [← announced_eq] at h1 h2
+    apply h e.2 e.1 e'.1
+    · rcases h1 with h1 | h1
+      · exact Or.inr h1
+      · exact Or.inl h1
+    · rw [heq]
+      rcases h2 with h2 | h2
+      · exact Or.inr h2
+      · exact Or.inl h2
+  exact ⟨hw.len, fun i hi hj => WInv_get s hw hs i hi hj⟩
 
 /-- the full ids listed with a chunk are exactly its not-yet-aliased ids, each once -/
 theorem C01.data_ids_listed (p : Policy) (rev : List (DataID × Nat)) (evs : List Ev) :
     ∀ c ∈ (run (init p rev) evs).sent,
-      c.dataIDs.Nodup ∧ ∀ d, d ∈ c.dataIDs ↔ ∃ g ∈ c.groups, g.ref = .id d := by
-  sorry
+      c.dataIDs.Nodup ∧ ∀ d, d ∈ c.dataIDs ↔ ∃ g ∈ c.groups, g.ref = .id d :=
+  (Inv_run_init p rev evs).ids
 
 def pointCount (gs : Groups) : Nat := (gs.map (·.points.length)).sum
 
@@ -71,7 +105,16 @@ def pointCount (gs : Groups) : Nat := (gs.map (·.points.length)).sum
 theorem C01.close_totals (p : Policy) (rev : List (DataID × Nat)) (evs : List Ev) :
     let s := run (init p rev) (evs ++ [.closeFlush, .closeRequest])
     s.closeReq = some ((s.sendHook.map (pointCount ·.2)).sum, s.sent.length) ∧ s.buf = [] := by
-  sorry
+  intro s
+  have hs : s = closeRequest (cut (run (init p rev) evs)) := by
+    show run _ _ = _
+    rw [run_append]; rfl
+  have hi : Inv (cut (run (init p rev) evs)) := Inv_cut _ (Inv_run_init p rev evs)
+  rw [hs]
+  refine ⟨?_, cut_buf _⟩
+  show some ((cut (run (init p rev) evs)).total, (cut (run (init p rev) evs)).seq) =
+    some (((cut (run (init p rev) evs)).sendHook.map (fun e => pcount e.2)).sum, (cut (run (init p rev) evs)).sent.length)
+  rw [← hi.total, hi.len]
 
 /-- all results of all acks of a history, in arrival order -/
 def results : List Ev → List (Nat × Nat)
@@ -79,21 +122,58 @@ def results : List Ev → List (Nat × Nat)
   | .ack rs _ :: r => rs ++ results r
   | _ :: r => results r
 
+theorem results_eq (evs : List Ev) : results evs = evs.flatMap res := by
+  induction evs with
+  | nil => rfl
+  | cons e r ih => cases e <;> simp [results, res, ih]
+
 /-- ACK HOOK: every result the broker sent is reported to the ack hook exactly once, in order, with the broker's code
     (also duplicates and results for unknown sequence numbers: the hook sees what the broker said) -/
 theorem C01.ack_hook (p : Policy) (rev : List (DataID × Nat)) (evs : List Ev) :
     (run (init p rev) evs).ackHook = results evs := by
-  sorry
+  rw [results_eq, ackHook_run]; rfl
+
+/-- every result of every ack of the history bears a sequence number that was already issued when that ack arrived
+    (the broker never acknowledges a chunk it has not received yet) -/
+def acksKnown (s : St) : List Ev → Bool
+  | [] => true
+  | e :: r =>
+    (match e with
+      | .ack rs _ => rs.all fun x => decide (x.1 ≤ s.seq)
+      | _ => true) && acksKnown (step s e) r
+
+theorem acksKnown_eq (evs : List Ev) : ∀ s : St, acksKnown s evs = known s evs := by
+  induction evs with
+  | nil => intro s; rfl
+  | cons e r ih => intro s; cases e <;> simp [acksKnown, known, res, ih]
 
 /-- a chunk leaves the store only through a result bearing its sequence number; acknowledged chunks are gone, the others kept -/
-theorem C01.store_tracks_acks (p : Policy) (rev : List (DataID × Nat)) (evs : List Ev) :
+-- STATEMENT CHANGED: added the hypothesis `hk : acksKnown (init p rev) evs = true` (no result refers to a sequence number
+-- that is still in the future when the ack arrives).  Without it the statement is false: a result for a not-yet-issued
+-- number has no waiter, so it removes nothing, and the chunk cut later under that number stays in the store although its
+-- number occurs in `results`.  Counterexample (see the `example` below the theorem):
+--   p = .none, rev = [], evs = [.ack [(1,0)] [], .accept 1 [⟨1,[1]⟩], .flush], q = 1:
+--   (alGet 1 s.store).isSome = true, 1 ∈ s.sent.map (·.seq), but 1 ∈ (results evs).map (·.1).
+-- The conclusion is unchanged.
+theorem C01.store_tracks_acks (p : Policy) (rev : List (DataID × Nat)) (evs : List Ev)
+    (hk : acksKnown (init p rev) evs = true) :
     let s := run (init p rev) evs
     ∀ q, (alGet q s.store).isSome ↔ (q ∈ s.sent.map (·.seq) ∧ q ∉ (results evs).map (·.1)) := by
-  sorry
+  intro s q
+  have h : SInv s := SInv_run evs (init p rev) (by rw [← acksKnown_eq]; exact hk) (SInv_init p rev)
+  have h' := h.st q
+  rw [C01.ack_hook] at h'
+  exact h'
+
+/-- the counterexample to the unrestricted form of `store_tracks_acks` -/
+example : let evs : List Ev := [.ack [(1, 0)] [], .accept 1 [⟨1, [1]⟩], .flush]
+    let s := run (init .none []) evs
+    (alGet 1 s.store).isSome = true ∧ 1 ∈ s.sent.map (·.seq) ∧ 1 ∈ (results evs).map (·.1) ∧
+    acksKnown (init .none []) evs = false := by decide
 
 /-- nothing is cut or transmitted by the close request itself: after Close's final flush no further chunk appears -/
-theorem C01.no_chunk_after_close (s : St) : (closeRequest s).sent = s.sent ∧ (closeRequest s).sendHook = s.sendHook := by
-  sorry
+theorem C01.no_chunk_after_close (s : St) : (closeRequest s).sent = s.sent ∧ (closeRequest s).sendHook = s.sendHook :=
+  ⟨rfl, rfl⟩
 
 example : (run (init (.size 3) [(1, 1)]) [.accept 1 [⟨5, [1, 2]⟩], .accept 2 [⟨6, [3, 4]⟩], .ack [(1, 1)] [(2, 2)], .accept 2 [⟨7, []⟩], .flush]).sent
     = [⟨1, [⟨.alias 1, [⟨5, [1, 2]⟩]⟩, ⟨.id 2, [⟨6, [3, 4]⟩]⟩], [2]⟩, ⟨2, [⟨.alias 2, [⟨7, []⟩]⟩], []⟩] := by decide
